@@ -391,6 +391,44 @@ func (it *Interp) textModel(st *state, name string, c *ssa.CallCommon, args []Va
 			base, okB = it.concreteInt(args[1])
 			size, okS = it.concreteInt(args[2])
 		}
+		if ok && okB && okS && base == 16 && (s.Sym || s.Known) && size >= 1 && size <= 64 {
+			// base 16 over hexadecimal characters (tagged nibbles or constant hex digits): the value is
+			// the concatenation of the nibbles; the error is nil iff there is at least one character and
+			// the value fits the bit size (on a range error the maximum is returned)
+			hc, okC := toCharsOf(it, s)
+			if !okC || len(hc) > 16 {
+				return nil, false
+			}
+			if len(hc) == 0 {
+				return TupleV{it.constBV(0, 64).signedIf(name != "strconv.ParseUint"), ErrV{it.T.zero}}, true
+			}
+			val := it.constBV(0, 64)
+			for i, c := range hc {
+				nb, okN := it.nibbleOfChar(c)
+				if !okN {
+					return nil, false
+				}
+				sh := 4 * (len(hc) - 1 - i)
+				copy(val.B[sh:sh+4], nb)
+			}
+			max := uint64(1)<<uint(size) - 1
+			if name == "strconv.ParseInt" {
+				max = uint64(1)<<uint(size-1) - 1
+			}
+			if size == 64 && name == "strconv.ParseUint" {
+				max = ^uint64(0)
+			}
+			fits := it.T.Not(it.ult(it.constBV(max, 64), val))
+			res := BV{W: 64, B: make([]*Node, 64), Signed: name != "strconv.ParseUint"}
+			mx := it.constBV(max, 64)
+			for k := 0; k < 64; k++ {
+				res.B[k] = it.T.Mux(fits, val.B[k], mx.B[k])
+			}
+			if fits == it.T.one {
+				return TupleV{res, NilV{}}, true
+			}
+			return TupleV{res, ErrV{fits}}, true
+		}
 		if !ok || !okB || !okS || base != 10 || !(s.Sym || s.Known) || size < 1 || size > 64 {
 			return nil, false
 		}
@@ -903,4 +941,10 @@ func (it *Interp) EquivUnderPremise(x, y *Node) bool {
 		return it.T.Equiv(x, y)
 	}
 	return it.T.Equiv(it.T.And(it.Premise, it.T.Xor(x, y)), it.T.zero)
+}
+
+
+func (v BV) signedIf(b bool) BV {
+	v.Signed = b
+	return v
 }
